@@ -179,7 +179,7 @@ def ob_validate_then_use(run, oid):
 def ob_sanitise_tx(run, oid):
     prog = run.program("lib")
     o = run.ob(oid, "client transactions are size-checked before they are serialised into a slice",
-               "an oversized transaction underflows the remaining-space computation (panic, overflow checks are on in release) or yields a slice too large to shred", floor=4)
+               "an oversized transaction underflows the remaining-space computation (panic, overflow checks are on in release) or yields a slice too large to shred", floor=5)
     mx = prog.const_int(A + "MAX_TRANSACTION_SIZE")
     sites = []
     for b in prog.family(A + "consensus::block_producer::produce_slice_payload"):
@@ -235,6 +235,24 @@ def ob_sanitise_tx(run, oid):
         ok = bool(cont) and all((r[1] is False and r[2] >= tx_max) for r in cont) and all(r[1] is True for r in stop)
         o.check(ok, "produce_slice_payload|space-reservation|covers-encoded-tx", "another transaction is accepted only while free space >= %d = encoded size of the largest admitted transaction (length prefix + MAX_TRANSACTION_SIZE)" % tx_max,
                 cont[0][4] if cont else b.span, {"guards": [(r[1], r[2], "continues" if r[3] else "stops") for r in res], "max_encoded_transaction": tx_max})
+        # the transaction counter written into the length prefix counts exactly the transactions that were serialised
+        incs = []
+        for (bb2, i2, dst2, rv2, sp2) in b.assignments():
+            if dst2["p"] or rv2["k"] != "use":
+                continue
+            t2 = b.rvalue_term(rv2)
+            if isinstance(t2, tuple) and t2 and t2[0] == "field" and t2[2] == "0" and isinstance(t2[1], tuple) and t2[1][0] == "bin" and t2[1][1].startswith("Add") and K.const_eval(t2[1][3]) == 1:
+                base = t2[1][2]
+                if isinstance(base, tuple) and base and base[0] == "local" and base[1] == dst2["l"]:
+                    incs.append((bb2, sp2))
+        tole = [x for x in b.calls() if x.name.rsplit("::", 1)[-1] == "to_le_bytes"]
+        if incs and tole:
+            okc = True
+            for (bb2, sp2) in incs:
+                same_guard = any(a[0] == "lt" and a[2] is False and K.const_eval(a[1][0]) == mx and K.mentions_call(a[1][1], "::len") for a in G.guard_atoms(b, bb2, prog))
+                okc = okc and same_guard and (b.dominates(bb2, c.bb) or b.dominates(c.bb, bb2))
+            o.check(okc and len(incs) == 1, "produce_slice_payload|tx-count=serialised", "the count written into the slice's length prefix is incremented exactly for the transactions that are serialised "
+                    "(behind the same size check, on the same path)", incs[0][1], {"increments": len(incs)})
         md = prog.const_int(A + "shredder::MAX_DATA_PER_SLICE")
         if md is not None and par_max is not None:
             o.check(md - par_max - 8 - 8 >= tx_max, "produce_slice_payload|space-reservation|first-iteration",
